@@ -402,6 +402,16 @@ fn process_withdrawals_for_single_pool<C: ContentAddrStore>(
         .fold(0u128, |a, b| a.saturating_add(b));
     // get the state
     let mut pool_state = state.pools.get(pool).unwrap();
+    // Liquidity tokens are ordinary coins: an off-mainnet faucet or a genesis coin can carry a pool's liquidity denomination
+    // without the pool ever having issued it. Requests that together name more liquidity than the pool records (`withdraw`
+    // asserts against that), or all the liquidity of a built-in pool (pegging and the per-block subsidy divide by its
+    // reserves), are left unsettled instead of stopping the block from sealing.
+    let is_builtin = *pool == PoolKey::new(Denom::Mel, Denom::Sym)
+        || *pool == PoolKey::new(Denom::Mel, Denom::Erg)
+        || (state.tip_902() && *pool == PoolKey::new(Denom::Erg, Denom::Sym));
+    if total_liqs > pool_state.liqs || (is_builtin && total_liqs == pool_state.liqs) {
+        return;
+    }
     let (total_left, total_write) = pool_state.withdraw(total_liqs);
     state.pools.insert(*pool, pool_state);
     // divvy up the lefts and rights
